@@ -536,7 +536,7 @@ static void mode_carry(uint64_t seed, int nscen, int want_proc) {
 		/* keep the sequence only if the reference sees a refusal in the middle of a carry chain (or, for 'leak', behind the processor) */
 		lf_init(&lf);
 		for (i = 0; i < n; i++) {
-			int eff = lv[i].level + (want_proc ? 1 : 0), ovf = eff > 255 ? 1 : lf_carry_overflow(&lf, eff);
+			int eff = lv[i].level + want_proc, ovf = eff > 255 ? 1 : lf_carry_overflow(&lf, eff);
 			if (ovf) { if (want_proc ? eff <= 255 : ovf > 1) hit++; continue; }
 			lf_add(&lf, eff);
 		}
@@ -928,6 +928,8 @@ int main(int argc, char **argv) {
 	else if (!strcmp(mode, "rnd") && argc > 3) mode_rnd(strtoull(argv[2], NULL, 10), atoi(argv[3]));
 	else if (!strcmp(mode, "carry") && argc > 3) mode_carry(strtoull(argv[2], NULL, 10), atoi(argv[3]), 0);
 	else if (!strcmp(mode, "leak") && argc > 3) mode_carry(strtoull(argv[2], NULL, 10), atoi(argv[3]), 1);
+	else if (!strcmp(mode, "leak2") && argc > 3) mode_carry(strtoull(argv[2], NULL, 10), atoi(argv[3]), 2);   /* two processors in a row, as the block signer with masks and metadata sets up */
+	else if (!strcmp(mode, "leak3") && argc > 3) mode_carry(strtoull(argv[2], NULL, 10), atoi(argv[3]), 3);
 	else if (!strcmp(mode, "bs") && argc > 3) mode_bs(strtoull(argv[2], NULL, 10), atoi(argv[3]));
 	else if (!strcmp(mode, "tree") && argc > 2) mode_tree(argv[2]);
 	else if (!strcmp(mode, "block") && argc > 7) mode_block(argv + 2);
